@@ -228,7 +228,7 @@ fn stress_leg(acc: &mut Acc, rounds: usize) {
     use std::collections::BTreeMap;
     use std::sync::{Arc, Barrier};
     let h: Handler = Arc::new(move |name, p| (Ok(Value::Vec(vec![Value::String(name.to_string()), p])), 1));
-    let texts = ["c(id)", "c(other)", "[n(id), c(id), c(i7)]", "c(id) == c(other)", "if id > other then c(other) else c(id + other)"];
+    let texts = ["c(other)", "c(id)", "[n(id), c(id), c(i7), c(other + i1000000)]", "c(id) == c(other)", "if id > other then c(other) else c(id + other)"];
     let build = || {
         let mut b = ruleset();
         for (i, t) in texts.iter().enumerate() {
@@ -240,7 +240,8 @@ fn stress_leg(acc: &mut Acc, rounds: usize) {
     let reference = build();
     let threads = 8usize;
     let barrier = Arc::new(Barrier::new(threads));
-    let facts = |round: usize, t: usize| Value::Map([("id".to_string(), Value::Int((round * threads + t) as i128)), ("other".to_string(), Value::Int((round * 31 + t * 7) as i128 % 97))].into_iter().collect());
+    // `other` is the same never-seen-before value for all threads of a round, `id` is distinct
+    let facts = |round: usize, t: usize| Value::Map([("id".to_string(), Value::Int((100_000 + round * threads + t) as i128)), ("other".to_string(), Value::Int(round as i128))].into_iter().collect());
     let eval = |rs: &RuleSet, f: &Value| -> Vec<Obs> {
         match crate::engine::exec::block_on(rs.evaluate_value(f)) {
             Ok(Ok(o)) => o.into_iter().map(|x| observe(Ok(x.value))).collect(),
@@ -254,7 +255,7 @@ fn stress_leg(acc: &mut Acc, rounds: usize) {
             let mut out = Vec::new();
             for round in 0..rounds {
                 barrier.wait();
-                let f = Value::Map([("id".to_string(), Value::Int((round * 8 + t) as i128)), ("other".to_string(), Value::Int((round * 31 + t * 7) as i128 % 97))].into_iter().collect());
+                let f = Value::Map([("id".to_string(), Value::Int((100_000 + round * 8 + t) as i128)), ("other".to_string(), Value::Int(round as i128))].into_iter().collect());
                 let o: Vec<Obs> = match crate::engine::exec::block_on(rs.evaluate_value(&f)) {
                     Ok(Ok(o)) => o.into_iter().map(|x| observe(Ok(x.value))).collect(),
                     other => vec![Obs::Panic(format!("{:?}", other.map(|_| ())))],
